@@ -52,6 +52,8 @@ def xcfg : XCfg :=
     threadsSkipsVanished := Gen.C06.threadsSkipsVanished
     threadsChecksAlive := Gen.C06.threadsChecksAlive
     threadsSkipsEsrch := Gen.C06.threadsSkipsEsrch
-    threadsHitStartsFalse := Gen.C06.threadsHitStartsFalse }
+    threadsHitStartsFalse := Gen.C06.threadsHitStartsFalse
+    nameExtendMin := Gen.C06.nameExtendMin
+    nameExtendChecksPrefix := Gen.C06.nameExtendGuards.contains "os.fsencode(extended_name).startswith(bname)" }
 
 end Psutil.C06
